@@ -3,6 +3,8 @@
 //! note: which pending HTLCs count towards the next commitment and which are already folded into the balance (ChannelContext::get_next_commitment_htlcs vs get_next_commitment_value_to_self_msat): every pending HTLC is represented exactly once
 //! trusted: R15 (statement slicing): both functions are iterator chains over the channel's HTLC vectors; the unit extracts, on every run, the four `match (state, local)` predicates (the bodies of the `.filter(..)` closures) verbatim into four predicate functions over the real state enums and proves the exactly-once relation between them; the surrounding map/sum/chain plumbing is dropped and not claimed
 //! trusted: payload types of the state enums (InboundHTLCResolution, InboundUpdateAdd, OnionErrorPacket, OnionPacket, PaymentPreimage, AttributionData, HTLCFailReason) are opaque
+//! trusted: R15 (deep slices): revoke_and_ack: the bodies of the two `retain` closures that drop irrevocably removed HTLCs and accumulate value_to_self_msat_diff, and the statement applying the diff to every funding scope, verbatim; InboundHTLCOutput / OutboundHTLCOutput field skeletons; OutboundHTLCOutcome::clone external_body (returns an equal value); hold_time_since / set_hold_time external_body (timing only: `.map(|hold_time| ..)` with a captured &mut is written as a match, R8, and the timestamp argument is dropped); R16 for `&`-patterns; the promotion of the remaining HTLC states in the same function is dropped and not claimed
+//! assume: HTLC amounts and balances <= 21e18 msat; |value_to_self_msat_diff| <= 4e18 while it is accumulated; the resulting balance lies between 0 and the channel value (representation invariant of the channel)
 //! plemma: C01 lemma_each_pending_htlc_exactly_once: an HTLC is never both an output of the next commitment and already credited to the claimer's balance, and a successfully claimed HTLC that is no longer an output is always credited (for both commitments)
 use vstd::prelude::*;
 verus! {
@@ -105,5 +107,95 @@ pub proof fn lemma_each_pending_htlc_exactly_once(i: InboundHTLCState, o: Outbou
         !in_success(i) ==> !in_credit(i, local),
         !out_success(o) ==> !out_debit(o, local),
 {}
+
+// ---- irrevocable settlement: how revoke_and_ack moves value_to_self_msat (three deep R15 slices of FundedChannel::revoke_and_ack) ----
+#[derive(Clone, Copy)] pub struct PaymentHash(pub [u8; 32]);
+pub struct HTLCSource {}
+impl Clone for HTLCSource { #[verifier::external_body] fn clone(&self) -> (r: Self) { unimplemented!() } }
+pub struct Duration {}
+impl Clone for OutboundHTLCOutcome { #[verifier::external_body] fn clone(&self) -> (r: Self) ensures r == *self { unimplemented!() } }
+impl HTLCFailReason { #[verifier::external_body] pub fn set_hold_time(&mut self, hold_time: u32) { unimplemented!() } }
+#[verifier::external_body] pub fn hold_time_since(send_timestamp: Option<Duration>) -> Option<u32> { unimplemented!() }
+pub struct InboundHTLCOutput { pub htlc_id: u64, pub amount_msat: u64, pub payment_hash: PaymentHash, pub state: InboundHTLCState }
+pub struct OutboundHTLCOutput { pub htlc_id: u64, pub amount_msat: u64, pub payment_hash: PaymentHash, pub state: OutboundHTLCState, pub source: HTLCSource, pub send_timestamp: Option<Duration> }
+
+//@extract lightning/src/ln/channel.rs :: impl FundedChannel :: fn revoke_and_ack
+//@slice R15
+    pending_inbound_htlcs.retain(|htlc| { $body:any });
+//@with
+    fn inbound_htlc_kept_on_revoke_and_ack(htlc: &InboundHTLCOutput, value_to_self_msat_diff_: i64, expecting_peer_commitment_signed: &mut bool) -> (bool, i64) {
+        let mut value_to_self_msat_diff = value_to_self_msat_diff_;
+        let __kept = { $body };
+        (__kept, value_to_self_msat_diff)
+    }
+//@rw R16
+    if let &InboundHTLCState::LocalRemoved(ref reason) = &htlc.state
+//@with
+    if let InboundHTLCState::LocalRemoved(reason) = &htlc.state
+//@rw R16 ?
+    if let &InboundHTLCRemovalReason::Fulfill { .. } = reason
+//@with
+    if let InboundHTLCRemovalReason::Fulfill { .. } = reason
+//@ret r
+//@requires
+    htlc.amount_msat <= 21_000_000_0000_0000_000, -4_000_000_000_000_000_000 <= value_to_self_msat_diff_ <= 4_000_000_000_000_000_000,
+//@ensures P C01 an-inbound-htlc-leaves-the-channel-state-when-its-removal-is-revoked-and-credits-its-amount-to-us-exactly-if-it-was-fulfilled
+    r.0 == !(htlc.state is LocalRemoved),
+    r.1 == value_to_self_msat_diff_ + (if in_success(htlc.state) { htlc.amount_msat as int } else { 0 }),
+//@mutant failed_inbound_htlc_credited
+    if let &InboundHTLCRemovalReason::Fulfill { .. } = reason { value_to_self_msat_diff += htlc.amount_msat as i64; }
+//@with
+    value_to_self_msat_diff += htlc.amount_msat as i64;
+//@end
+
+//@extract lightning/src/ln/channel.rs :: impl FundedChannel :: fn revoke_and_ack
+//@slice R15
+    pending_outbound_htlcs.retain(|htlc| { $body:any });
+//@with
+    fn outbound_htlc_kept_on_revoke_and_ack(htlc: &OutboundHTLCOutput, value_to_self_msat_diff_: i64, revoked_htlcs: &mut Vec<(HTLCSource, PaymentHash, HTLCFailReason)>,
+        finalized_claimed_htlcs: &mut Vec<(HTLCSource, Option<AttributionData>)>) -> (bool, i64) {
+        let mut value_to_self_msat_diff = value_to_self_msat_diff_;
+        let __kept = { $body };
+        (__kept, value_to_self_msat_diff)
+    }
+//@rw R16
+    if let &OutboundHTLCState::AwaitingRemovedRemoteRevoke(ref outcome) = &htlc.state
+//@with
+    if let OutboundHTLCState::AwaitingRemovedRemoteRevoke(outcome) = &htlc.state
+//@rw R8
+    hold_time_since(htlc.send_timestamp).map(|hold_time| { reason.set_hold_time(hold_time); });
+//@with
+    match hold_time_since(None) { Some(hold_time) => { reason.set_hold_time(hold_time); }, None => {} }
+//@ret r
+//@requires
+    htlc.amount_msat <= 21_000_000_0000_0000_000, -4_000_000_000_000_000_000 <= value_to_self_msat_diff_ <= 4_000_000_000_000_000_000,
+//@ensures P C01 an-outbound-htlc-leaves-the-channel-state-when-its-removal-is-revoked-and-debits-its-amount-from-us-exactly-if-the-peer-fulfilled-it
+    r.0 == !(htlc.state is AwaitingRemovedRemoteRevoke),
+    r.1 == value_to_self_msat_diff_ - (if htlc.state is AwaitingRemovedRemoteRevoke && htlc.state->AwaitingRemovedRemoteRevoke_0 is Success { htlc.amount_msat as int } else { 0 }),
+//@mutant fulfilled_outbound_htlc_not_debited
+    value_to_self_msat_diff -= htlc.amount_msat as i64;
+//@with
+    value_to_self_msat_diff -= 0;
+//@end
+
+//@extract lightning/src/ln/channel.rs :: impl FundedChannel :: fn revoke_and_ack
+//@slice R15
+    for funding in self.funding_and_pending_funding_iter_mut() { funding.value_to_self_msat = $e; }
+//@with
+    fn settled_value_to_self(funding_value_to_self_msat: u64, value_to_self_msat_diff: i64) -> u64 { $e }
+//@rw R5 *
+    funding.value_to_self_msat
+//@with
+    funding_value_to_self_msat
+//@ret r
+//@requires
+    funding_value_to_self_msat <= 21_000_000_0000_0000_000, 0 <= funding_value_to_self_msat as int + value_to_self_msat_diff <= 21_000_000_0000_0000_000,
+//@ensures P C01 the-new-balance-is-the-old-one-plus-what-was-settled-to-us-minus-what-was-settled-away
+    r as int == funding_value_to_self_msat as int + value_to_self_msat_diff as int,
+//@mutant settlement_diff_subtracted
+    funding.value_to_self_msat as i64 + value_to_self_msat_diff
+//@with
+    funding.value_to_self_msat as i64 - value_to_self_msat_diff
+//@end
 }
 fn main() {}
